@@ -3,6 +3,7 @@ import PMV.Proofs.PyCoreInst
 import PMV.Proofs.PyCoreMono
 import PMV.Proofs.PyCoreImports
 import PMV.Proofs.PyCoreBindInst
+import PMV.Proofs.RemovePass
 import PMV.Proofs.PyCoreRename2
 import PMV.Proofs.PyCoreHoist2
 import PMV.Proofs.PyCoreAnn
@@ -38,8 +39,7 @@ open PMV PMV.Transforms PMV.PyCore PMV.Minify PMV.RenameAst PMV.HoistAst
 
 /-- T01.1 -/
 theorem remove_pass_preserves (n : Nat) (m : Module) : run n (travModule removePass m) = run n m :=
-  run_trav (dropT isPass) (dropT_sound isPass isPass_noop) (dropT_table (o := false) isPass isPass_noop) n m
-    (stable_of_bindOK _ (dropT_bindOK isPass isPass_binds) _)
+  run_trav removePass removePass_sound removePass_table n m (stable_of_bindOK _ removePass_bindOK _)
 
 /-- T01.2 (including the guard that leaves the module alone when it mentions `__doc__`) -/
 theorem remove_literals_preserves (n : Nat) (m : Module) : run n (removeLiteralStatements m) = run n m := by
@@ -190,8 +190,7 @@ theorem pipeline_partial (t : Printer.PrecTable) (sp : Token.Spacing) (orc : Fol
 /-! the same transforms under `python -O` semantics -/
 
 theorem remove_pass_preserves_under_O (n : Nat) (m : Module) : runO n (travModule removePass m) = runO n m :=
-  runO_trav (dropT isPass) (dropT_sound isPass isPass_noop) (dropT_table (o := true) isPass isPass_noop) n m
-    (stable_of_bindOK _ (dropT_bindOK isPass isPass_binds) _)
+  runO_trav removePass removePass_sound removePass_table n m (stable_of_bindOK _ removePass_bindOK _)
 
 theorem remove_literals_preserves_under_O (n : Nat) (m : Module) : runO n (removeLiteralStatements m) = runO n m := by
   unfold removeLiteralStatements
